@@ -34,7 +34,7 @@ func runSolverCtx(ctx context.Context, s solverSpec, input string, timeoutS int,
 	t0 := time.Now()
 	_ = cmd.Run()
 	secs = time.Since(t0).Seconds()
-	output = out.String()
+	output = dropWarnings(out.String())
 	first := strings.TrimSpace(strings.SplitN(output, "\n", 2)[0])
 	switch first {
 	case "unsat", "sat", "unknown":
@@ -153,4 +153,20 @@ func hedgeSolvers() []solverSpec {
 		return []solverSpec{solvers[1], solvers[3]}
 	}
 	return solvers[1:]
+}
+
+// dropWarnings removes solver warnings (z3 prints e.g. "WARNING: ... 'if' cannot be used in
+// patterns" when a trigger mentions a merged heap; it then ignores that trigger).
+func dropWarnings(out string) string {
+	if !strings.Contains(out, "WARNING") {
+		return out
+	}
+	var keep []string
+	for _, l := range strings.Split(out, "\n") {
+		if strings.HasPrefix(strings.TrimSpace(l), "WARNING") {
+			continue
+		}
+		keep = append(keep, l)
+	}
+	return strings.Join(keep, "\n")
 }
